@@ -1,5 +1,6 @@
 SPECIFICATION Spec
 CONSTANTS
   MaxDim = 3
+  AllPerms = TRUE
 INVARIANTS TermCountsMatchManual EquationsWellFormed VerdictTotal AbbreviatedInPortOrder EntryPointsAgree FullAndAbbreviatedAgree RenumberingIsConsistentPermutation RelistingChangesNothing
 CHECK_DEADLOCK FALSE
